@@ -534,3 +534,211 @@ func rulePluginConfinement(r *Run, rule string) {
 	// and runAction inside execSeq only synchronously (R3).
 	_ = strings.Join
 }
+
+// ruleRunActionGuards: runAction returns nil for a Completed action and the recorded
+// error for a Failed one without starting the action machine; otherwise it runs the
+// machine and returns its error.
+func ruleRunActionGuards(r *Run, rule string) {
+	fn := r.fnByKey(rule, smKey("runAction"))
+	if fn == nil {
+		return
+	}
+	fl, paths, ok := r.flowPaths(rule, fn)
+	if !ok {
+		return
+	}
+	info := fl.Info
+	bad := map[string]string{}
+	seen := map[string]bool{}
+	var pos = map[string]token.Pos{}
+	for i := range paths {
+		p := &paths[i]
+		if p.Exit != ExitReturn {
+			continue
+		}
+		// skip the test-hook path
+		hook := false
+		for _, e := range p.Ev {
+			if e.Kind == EvBranch && e.Cond != nil && e.Taken && strings.Contains(ExprStr(e.Cond), "testActionRunner != nil") {
+				hook = true
+			}
+		}
+		if hook {
+			continue
+		}
+		status := ""
+		ran := false
+		for _, e := range p.Ev {
+			if e.Kind == EvBranch && e.Taken {
+				if st, ok := statusTest(info, e, "workflow.Action"); ok {
+					status = st
+				}
+			}
+			if IsCall(e, keyRun) {
+				ran = true
+			}
+		}
+		var ret *Event
+		for j := range p.Ev {
+			if p.Ev[j].Kind == EvReturn && !p.Ev[j].Deferred {
+				ret = &p.Ev[j]
+			}
+		}
+		if ret == nil {
+			continue
+		}
+		isNil, _ := ReturnsNilLast(info, *ret)
+		switch status {
+		case "workflow.Completed":
+			seen["completed"] = true
+			pos["completed"] = ret.Pos
+			if (ran || !isNil) && bad["completed"] == "" {
+				bad["completed"] = "a Completed action must be skipped with a nil error (machine started=" + boolStr(ran) + ", returns nil=" + boolStr(isNil) + ")"
+			}
+		case "workflow.Failed":
+			seen["failed"] = true
+			pos["failed"] = ret.Pos
+			if (ran || isNil) && bad["failed"] == "" {
+				bad["failed"] = "a Failed action must not be run again and must report its failure (machine started=" + boolStr(ran) + ", returns nil=" + boolStr(isNil) + "): otherwise a recovered sequence steps over its failed action"
+			}
+		default:
+			seen["run"] = true
+			if !ran && bad["run"] == "" {
+				bad["run"] = "a path returns without running the action machine although the action is neither Completed nor Failed (guard " + ExitGuardKey(fl, p) + ")"
+				pos["run"] = ret.Pos
+			}
+		}
+	}
+	for _, k := range []string{"completed", "failed"} {
+		if !seen[k] {
+			r.Fail(rule, "runAction:guard-"+k, fn.Decl.Pos(), "runAction has no branch for an action that is already %s: it would be handed to the action machine again", k)
+			continue
+		}
+		r.Check(rule, "runAction:guard-"+k, pos[k], bad[k] == "", "%s", orOK(bad[k], "terminal action is not re-run and reports its stored verdict"))
+	}
+	n, b, ps := propagation(fl, paths, keyRun)
+	if ps == 0 {
+		ps = fn.Decl.Pos()
+	}
+	r.Check(rule, "runAction:machine-error-returned", ps, n > 0 && b == "" && bad["run"] == "", "%s", orOK(orOK(b, bad["run"]), "the action machine's error is runAction's result"))
+}
+
+// statusTest: a branch event that establishes `X.State.Status == <const>` for X of type owner
+// (switch case or == comparison, taken).
+func statusTest(info *types.Info, e Event, owner string) (string, bool) {
+	if e.Kind != EvBranch || e.Cond == nil {
+		return "", false
+	}
+	if e.Tag != nil {
+		if _, m := FieldPath(info, e.Tag, owner, "State", "Status"); m {
+			return ValueKey(info, e.Cond), true
+		}
+		return "", false
+	}
+	be, ok := ast.Unparen(e.Cond).(*ast.BinaryExpr)
+	if !ok || be.Op != token.EQL {
+		return "", false
+	}
+	if _, m := FieldPath(info, be.X, owner, "State", "Status"); m {
+		return ValueKey(info, be.Y), true
+	}
+	return "", false
+}
+
+// ruleFailureChain: an action's failure reaches execSeq: exec's outcome mapping,
+// Execute stores Retry's result, End promotes it to req.Err, runAction returns it.
+func ruleFailureChain(r *Run, rule string) {
+	fn := r.fnByKey(rule, actKey("Runner.exec"))
+	if fn == nil {
+		return
+	}
+	fl, paths, ok := r.flowPaths(rule, fn)
+	if !ok {
+		return
+	}
+	sub := NewRun(r.P, r.Prop, r.Tier)
+	sub.ruleKinds = r.ruleKinds
+	ruleExecOutcome(sub, rule, fn, fl, paths, nil)
+	ruleErrPermanent(sub, rule)
+	ruleRunnerGraph(sub, rule)
+	for _, o := range sub.Obls {
+		if strings.HasSuffix(o.Key, "outcome-mapping") || strings.HasSuffix(o.Key, "wraps-with-%w") || strings.HasSuffix(o.Key, "retry-op-is-exec") || o.Status != StOK {
+			r.Obls = append(r.Obls, o)
+		}
+	}
+	r.Paths += sub.Paths
+	// Runner.End promotes Data.err
+	end := r.fnByKey(rule, actKey("Runner.End"))
+	if end != nil {
+		ef, ep, ok := r.flowPaths(rule, end)
+		if ok {
+			bad := ""
+			for i := range ep {
+				p := &ep[i]
+				if p.Exit != ExitReturn {
+					continue
+				}
+				promoted := false
+				for _, e := range p.Ev {
+					if e.Kind == EvAssign && len(e.Lhs) == len(e.Rhs) {
+						for k, l := range e.Lhs {
+							if reqField(ef.Info, l, "Err") {
+								_, m := FieldPath(ef.Info, e.Rhs[k], "actions.Data", "err")
+								promoted = m
+							}
+						}
+					}
+				}
+				if !promoted && bad == "" {
+					bad = "a path of Runner.End returns without promoting Data.err to req.Err: a failed action would look successful to execSeq"
+				}
+			}
+			r.Check(rule, "Runner.End:promotes-error", end.Decl.Pos(), bad == "", "%s", orOK(bad, "req.Err = req.Data.err on every path"))
+		}
+	}
+	ruleRunActionGuards(r, rule)
+}
+
+// ruleExamineBypasses: examineBypasses answers true only for status Completed.
+func ruleExamineBypasses(r *Run, rule string) {
+	fn := r.Fn(rule, pkgSM, "finalStates", "examineBypasses")
+	if fn == nil {
+		return
+	}
+	fl, paths, ok := r.flowPaths(rule, fn)
+	if !ok {
+		return
+	}
+	bad := ""
+	nTrue := 0
+	var bpos = fn.Decl.Pos()
+	for i := range paths {
+		p := &paths[i]
+		if p.Exit != ExitReturn {
+			continue
+		}
+		completed := false
+		for _, e := range p.Ev {
+			if e.Kind == EvBranch && e.Taken {
+				if st, ok := statusTest(fl.Info, e, "workflow.Checks"); ok && st == "workflow.Completed" {
+					completed = true
+				}
+			}
+		}
+		for _, e := range p.Ev {
+			if e.Kind == EvReturn && len(e.Rhs) == 1 {
+				v := ValueKey(fl.Info, e.Rhs[0])
+				if v == "true" {
+					nTrue++
+				}
+				if v != "false" && !completed && bad == "" {
+					bad, bpos = "examineBypasses answers "+orOK(v, ExprStr(e.Rhs[0]))+" on a path that did not establish BypassChecks.State.Status == Completed: a failed or unfinished bypass group would complete the plan", e.Pos
+				}
+			}
+		}
+	}
+	if nTrue == 0 && bad == "" {
+		bad = "examineBypasses never answers true"
+	}
+	r.Check(rule, "examineBypasses:true-only-if-completed", bpos, bad == "", "%s", orOK(bad, "true exactly on the Completed branch"))
+}
